@@ -382,6 +382,53 @@ func (c *Check) attrIteration(ruleS, ruleD string) {
 			c.fail(ruleS, "UpdateDecoder.decodePathAttrs", name+": cursor advance", p.InstrPos(cursor), "loop back edge unreachable")
 		}
 	}
+	// completeness: an attribute whose header and value lie inside the block
+	// (an empty value ending exactly at the block boundary included) is never
+	// reported as an overrun: with len(remaining) >= header+L assumed at the
+	// head of every iteration no totalAttrLenErr site is reachable
+	for _, ext := range []bool{true, false} {
+		h := int64(3)
+		if ext {
+			h = 4
+		}
+		a := NewAnalysis(p, fn)
+		a.NoInline = noInline
+		a.AtomHook = hooks(extHook(ext), rangeHook(isSetRes, isConst(0)))
+		head := cursor.Block()
+		a.AfterFlow = func(from, to *ssa.BasicBlock, st *State) {
+			if to != head {
+				return
+			}
+			ver := st.ver["E:*uint8"]
+			var L Lin
+			if ext {
+				L = linAtom(mk("call", types.Typ[types.Uint16], "be16", 0, cur, mkConst(2, intT), mkStr(ver)))
+			} else {
+				L = linAtom(mk("ld", types.Typ[types.Uint8], "@"+ver, 0, mkIndexAddr(cur, mkConst(2, intT), nil)))
+			}
+			st.addFact(Fact{L: st.linOf(mkLen(cur)).add(linConst(h), -1).add(L, -1)})
+		}
+		a.Run()
+		name := fmt.Sprintf("extended length=%v: a fitting attribute is not an overrun", ext)
+		if len(a.Undecided) > 0 {
+			c.undecided(ruleD, "UpdateDecoder.decodePathAttrs", name, p.Pos(fn.Pos()), a.Undecided[0])
+			continue
+		}
+		bad := ""
+		nsites := 0
+		for _, cl := range p.callsIn(fn, descIs("totalAttrLenErr")) {
+			if cl.Parent() == fn && !head.Dominates(cl.Block()) {
+				continue
+			}
+			nsites++
+			if a.Reachable(cl.(ssa.Instruction)) {
+				bad = p.InstrPos(cl.(ssa.Instruction))
+			}
+		}
+		reach := a.Reachable(paCall.(ssa.Instruction))
+		c.require(bad == "" && reach && nsites > 0, ruleD, "UpdateDecoder.decodePathAttrs", name, p.Pos(fn.Pos()),
+			fmt.Sprintf("with len(remaining) >= %d+L at the head of an iteration the callback is reached and no overrun error is raised (overrun site reachable: %q, callback reachable: %v)", h, bad, reach))
+	}
 	// duplicates: a type already seen never reaches paFn; MP attributes abort
 	mpReach, mpUnreach := p.MustConst("PATH_ATTR_MP_REACH_NLRI"), p.MustConst("PATH_ATTR_MP_UNREACH_NLRI")
 	typeByte := func(e *Expr) bool {
